@@ -87,3 +87,66 @@ pub fn runsrc(_rest: &[String]) -> anyhow::Result<()> {
     println!("{}", json!({"out": o.out, "err": {"kind": o.kind, "line": o.line}, "msg": o.msg}));
     Ok(())
 }
+
+/// Run a session: several chunks evaluated one after another on the same Module + Evaluator.
+/// Returns per chunk: transcript, error kind/line/message, call-stack depth afterwards and the
+/// balance of iteration-lock hook events (starts - stops) during the chunk.
+pub fn run_session(chunks: &mut [J], globals: &starlark::environment::Globals, gc: Option<starlark::verif::GcMode>) -> Vec<J> {
+    use starlark::environment::Module;
+    use starlark::eval::Evaluator;
+    use starlark::syntax::AstModule;
+    let mut res = Vec::new();
+    Module::with_temp_heap(|module| {
+        let mut eval = Evaluator::new(&module);
+        if let Some(g) = gc.clone() {
+            starlark::verif::set_gc_mode(g);
+        }
+        for ch in chunks.iter_mut() {
+            let src = print::module(ch);
+            run::OUT.with(|o| o.borrow_mut().clear());
+            starlark::verif::start_recording();
+            let r = util::catch(std::panic::AssertUnwindSafe(|| {
+                let ast = AstModule::parse("chunk.star", src.clone(), &run::dialect())?;
+                eval.eval_module(ast, globals).map(|_| ())
+            }));
+            let evs = starlark::verif::take_events();
+            let mut locks: i64 = 0;
+            let mut pushes: i64 = 0;
+            for e in &evs {
+                match e.a {
+                    "iter_start" => locks += 1,
+                    "iter_stop" => locks -= 1,
+                    "push" => pushes += 1,
+                    "pop" => pushes -= 1,
+                    _ => {}
+                }
+            }
+            let out = run::OUT.with(|o| std::mem::take(&mut *o.borrow_mut()));
+            let (kind, line, msg) = match r {
+                Ok(Ok(())) => (String::new(), 0, String::new()),
+                Ok(Err(e)) => run::err_of(&e),
+                Err(p) => ("panic".to_owned(), 0, p),
+            };
+            let stack = util::catch(std::panic::AssertUnwindSafe(|| eval.call_stack_count())).unwrap_or(usize::MAX);
+            res.push(json!({"out": out, "kind": kind, "line": line, "msg": msg, "stack": stack, "locks": locks, "pushes": pushes, "src": src}));
+        }
+        starlark::verif::set_gc_mode(starlark::verif::GcMode::Default);
+    });
+    res
+}
+
+/// vh replay sess <cases.ndjson> <out.ndjson>: case {"id","chunks":[ast...]}
+pub fn replay_sessions(rest: &[String]) -> anyhow::Result<()> {
+    let cases = util::read_ndjson(&rest[0])?;
+    let mut out = util::NdWriter::create(&rest[1])?;
+    let globals = run::globals();
+    for c in cases {
+        let mut chunks: Vec<J> = c["chunks"].as_array().cloned().unwrap_or_default();
+        let res = match util::catch(std::panic::AssertUnwindSafe(|| run_session(&mut chunks, &globals, None))) {
+            Ok(r) => json!({"id": c["id"], "res": r, "status": "ok"}),
+            Err(p) => json!({"id": c["id"], "res": [], "status": "panic", "what": p}),
+        };
+        out.write(&res)?;
+    }
+    out.finish()
+}
